@@ -195,7 +195,7 @@ def appendable_lines(src):
     return []
   out = []
   for i, l in enumerate(src.split("\n"), 1):
-    if not l.strip() or l.rstrip().endswith("\\") or i in bad:
-      continue
+    if not l.strip() or l.strip().startswith("#") or l.rstrip().endswith("\\") or i in bad:
+      continue   # blank, comment-only (a directive there would be stand-alone), continuation, inside a string
     out.append(i)
   return out
